@@ -219,7 +219,8 @@ func (c *OCSPRevocationChecker) tryGetResponseFromCache(cacheKey string) (*core.
 		cached := res.Data().(cachedRevocationStatus)
 		//the cache keeps an item alive as long as it is read; the lifetime of a response is absolute
 		if !time.Now().Before(cached.expiresAt) {
-			_, _ = c.cache.Delete(cacheKey)
+			//the expired item is not deleted here: the fresh response replaces it under the same key, and deleting
+			//concurrently with other readers and the expiry timer of the cache can block all of them for ever
 			return nil, errors.New("cached ocsp response is expired")
 		}
 		response := cached.status
